@@ -42,6 +42,7 @@ impl std::fmt::Debug for RegistryCore {
 impl RegistryCore {
     fn register(&mut self, c: Box<dyn Collector>) -> Result<()> {
         let mut desc_id_set = HashSet::new();
+        let mut new_dim_hashes: HashMap<String, u64> = HashMap::new();
         let mut collector_id: u64 = 0;
 
         for desc in c.desc() {
@@ -63,8 +64,19 @@ impl RegistryCore {
                 }
             }
 
-            self.dim_hashes_by_name
-                .insert(desc.fq_name.clone(), desc.dim_hash);
+            if let Some(hash) = new_dim_hashes.get(&desc.fq_name) {
+                if *hash != desc.dim_hash {
+                    return Err(Error::Msg(format!(
+                        "descriptors with the same fully-qualified name {:?} \
+                         within the same collector have different label \
+                         names or a different help string",
+                        desc.fq_name
+                    )));
+                }
+            }
+
+            // Only remember the dimensions once the whole collector is accepted.
+            new_dim_hashes.insert(desc.fq_name.clone(), desc.dim_hash);
 
             // If it is not a duplicate desc in this collector, add it to
             // the collector_id.
@@ -86,6 +98,7 @@ impl RegistryCore {
         match self.collectors_by_id.entry(collector_id) {
             HEntry::Vacant(vc) => {
                 self.desc_ids.extend(desc_id_set);
+                self.dim_hashes_by_name.extend(new_dim_hashes);
                 vc.insert(c);
                 Ok(())
             }
